@@ -22,3 +22,13 @@ class BareHolder(State):
 class SeqHolder(State):
     items: Sequence[Any] = ()
     opt: int | Missing = MISSING
+
+
+type MaybeThing = Sequence[Any] | State | bool | Missing  # (no Mapping: deep copies of stored mappings are known finding D3 of C04)
+
+
+class NestedUnionHolder(State):
+    """the missing value is admitted by an alternative that is itself a union (reached through an alias - typing cannot flatten it)"""
+
+    value: MaybeThing | None
+    tag: int = 0
